@@ -132,4 +132,118 @@ def gen_c07():
     X.write_if_changed('C07', '\n'.join(body))
 
 
-GENERATORS = [gen_c07]
+# ---------------------------------------------------------------------------------------------------------------------
+# Round 3: the statements the Lean model (AITB.Model.Experience `Cell.record` / `reset`, AITB.Model.ExperienceKeyed `KOp.toOp`,
+# `coopIdx`, `coopTransProb`, `coopExpReward`, `fbIdx`; AITB.Model.FactoredAlg `DDNGraph.getId`, `toIndexPartial`) was written
+# from, one level below the anchored files included (index helpers, tolerance helpers).  (name, file, signature regex, the
+# comment-stripped whitespace-free body).  Any other text is a broken tie: the site is dropped from `Gen/C07Sites.asModelled`
+# and the obligation `AITB.Exp.sites_current` no longer holds (and, unless AITB_C07_LENIENT_SITES=1 — mutation trials only, to
+# see what the behavioural clauses catch on their own — the translator reports an ExtractError).
+import os
+
+C07_SITES = [
+('coopExpRecord', 'src/Factored/MDP/CooperativeExperience.cpp', 'CooperativeExperience::record\\s*\\([^)]*\\)\\s*\\{', '{++timesteps_;constauto&S=graph_.getS();for(size_ti=0;i<S.size();++i){auto&rNode=rewards_[i];auto&mNode=M2s_[i];auto&vNode=visits_[i];autoid=graph_.getId(i,s,a);vNode(id,s1[i])+=1;vNode(id,S[i])+=1;constautodelta=rew[i]-rNode(id);rNode(id)+=delta/vNode(id,S[i]);mNode(id)+=delta*(rew[i]-rNode(id));indeces_[i]=id;}returnindeces_;}'),
+('coopExpReset', 'src/Factored/MDP/CooperativeExperience.cpp', 'void\\s+CooperativeExperience::reset\\s*\\(\\s*\\)\\s*\\{', '{for(size_ti=0;i<graph_.getS().size();++i){rewards_[i].setZero();M2s_[i].setZero();visits_[i].setZero();}timesteps_=0;}'),
+('coopExpCtor', 'src/Factored/MDP/CooperativeExperience.cpp', 'CooperativeExperience::CooperativeExperience\\s*\\([^)]*\\)\\s*:[^{]*\\{', '{constauto&S=graph_.getS();rewards_.reserve(S.size());visits_.reserve(S.size());for(size_ti=0;i<S.size();++i){rewards_.emplace_back(graph_.getSize(i));rewards_.back().setZero();M2s_.emplace_back(graph_.getSize(i));M2s_.back().setZero();visits_.emplace_back(graph_.getSize(i),S[i]+1);visits_.back().setZero();}indeces_.resize(S.size());}'),
+('coopMLCtor', 'src/Factored/MDP/CooperativeMaximumLikelihoodModel.cpp', 'CooperativeMaximumLikelihoodModel::CooperativeMaximumLikelihoodModel\\s*\\([^)]*\\)\\s*:[^;]*?\\)\\s*\\{', '{setDiscount(discount);constauto&S=experience_.getS();auto&tProbs=transitions_.transitions;tProbs.reserve(S.size());rewards_.reserve(S.size());for(size_ti=0;i<S.size();++i){constautod1=experience_.getGraph().getSize(i);constautod2=S[i];tProbs.emplace_back(d1,d2);rewards_.emplace_back(d1);tProbs.back().setZero();tProbs.back().col(0).fill(1.0);rewards_.back().setZero();}if(toSync)sync();}'),
+('coopMLSync', 'src/Factored/MDP/CooperativeMaximumLikelihoodModel.cpp', 'void\\s+CooperativeMaximumLikelihoodModel::sync\\s*\\(\\s*\\)\\s*\\{', '{constauto&S=experience_.getS();for(size_ti=0;i<S.size();++i){for(size_tj=0;j<getGraph().getSize(i);++j){syncRow(i,j);}}}'),
+('coopMLSyncSA', 'src/Factored/MDP/CooperativeMaximumLikelihoodModel.cpp', 'void\\s+CooperativeMaximumLikelihoodModel::sync\\s*\\(\\s*const\\s+State\\s*&\\s*s\\s*,\\s*const\\s+Action\\s*&\\s*a\\s*\\)\\s*\\{', '{constauto&S=experience_.getS();for(size_ti=0;i<S.size();++i){constautoj=experience_.getGraph().getId(i,s,a);syncRow(i,j);}}'),
+('coopMLSyncIdx', 'src/Factored/MDP/CooperativeMaximumLikelihoodModel.cpp', 'void\\s+CooperativeMaximumLikelihoodModel::sync\\s*\\(\\s*const\\s+CooperativeExperience::Indeces\\s*&\\s*indeces\\s*\\)\\s*\\{', '{constauto&S=experience_.getS();for(size_ti=0;i<S.size();++i){constautoj=indeces[i];syncRow(i,j);}}'),
+('coopMLSyncRow', 'src/Factored/MDP/CooperativeMaximumLikelihoodModel.cpp', 'void\\s+CooperativeMaximumLikelihoodModel::syncRow\\s*\\([^)]*\\)\\s*\\{', '{constauto&S=experience_.getS();constauto&vtable=experience_.getVisitsTable();constauto&rmatrix=experience_.getRewardMatrix();auto&tProbs=transitions_.transitions;constautototalVisits=vtable[i](j,S[i]);if(totalVisits==0)return;tProbs[i].row(j)=vtable[i].row(j).head(S[i]).cast<double>()/totalVisits;rewards_[i][j]=rmatrix[i][j];}'),
+('coopMLGetTP', 'src/Factored/MDP/CooperativeMaximumLikelihoodModel.cpp', 'double\\s+CooperativeMaximumLikelihoodModel::getTransitionProbability\\s*\\([^)]*\\)\\s*const\\s*\\{', '{returntransitions_.getTransitionProbability(s,a,s1);}'),
+('coopMLGetER', 'src/Factored/MDP/CooperativeMaximumLikelihoodModel.cpp', 'double\\s+CooperativeMaximumLikelihoodModel::getExpectedReward\\s*\\([^)]*\\)\\s*const\\s*\\{', '{constauto&S=experience_.getS();doubleretval=0.0;for(size_ti=0;i<S.size();++i){constautoj=experience_.getGraph().getId(i,s,a);retval+=rewards_[i][j];}returnretval;}'),
+('coopMLGetERs', 'src/Factored/MDP/CooperativeMaximumLikelihoodModel.cpp', 'void\\s+CooperativeMaximumLikelihoodModel::getExpectedRewards\\s*\\([^)]*\\)\\s*const\\s*\\{', '{assert(rewsp);constauto&S=experience_.getS();auto&rews=*rewsp;for(size_ti=0;i<S.size();++i){constautoj=experience_.getGraph().getId(i,s,a);rews[i]=rewards_[i][j];}}'),
+('coopTSSyncSA', 'src/Factored/MDP/CooperativeThompsonModel.cpp', 'void\\s+CooperativeThompsonModel::sync\\s*\\(\\s*const\\s+State\\s*&\\s*s\\s*,\\s*const\\s+Action\\s*&\\s*a\\s*\\)\\s*\\{', '{constauto&S=experience_.getS();for(size_ti=0;i<S.size();++i){constautoj=experience_.getGraph().getId(i,s,a);syncRow(i,j);}}'),
+('coopTSSyncIdx', 'src/Factored/MDP/CooperativeThompsonModel.cpp', 'void\\s+CooperativeThompsonModel::sync\\s*\\(\\s*const\\s+CooperativeExperience::Indeces\\s*&\\s*indeces\\s*\\)\\s*\\{', '{constauto&S=experience_.getS();for(size_ti=0;i<S.size();++i){constautoj=indeces[i];syncRow(i,j);}}'),
+('coopTSSyncRow', 'src/Factored/MDP/CooperativeThompsonModel.cpp', 'void\\s+CooperativeThompsonModel::syncRow\\s*\\([^)]*\\)\\s*\\{', '{constauto&S=experience_.getS();constauto&vtable=experience_.getVisitsTable();constauto&rmatrix=experience_.getRewardMatrix();constauto&m2matrix=experience_.getM2Matrix();auto&tProbs=transitions_.transitions;sampleDirichletDistribution(vtable[i].row(j).head(S[i]).array().cast<double>()+0.5,rand_,tProbs[i].row(j));constautototalVisits=vtable[i](j,S[i]);if(totalVisits<2){rewards_[i][j]=rmatrix[i][j];}else{std::student_t_distribution<double>dist(totalVisits-1);rewards_[i][j]=rmatrix[i][j]+dist(rand_)*std::sqrt(m2matrix[i][j]/(totalVisits*(totalVisits-1)));}}'),
+('fbExpCtor', 'src/Factored/Bandit/Experience.cpp', 'Experience::Experience\\s*\\([^)]*\\)\\s*:[^{]*\\{', '{qfun_.bases.resize(deps_.size());counts_.resize(deps_.size());M2s_.resize(deps_.size());indeces_.resize(deps_.size());for(size_ti=0;i<qfun_.bases.size();++i){qfun_.bases[i].tag=deps_[i];qfun_.bases[i].values.resize(factorSpacePartial(deps_[i],A));qfun_.bases[i].values.setZero();M2s_[i].resize(qfun_.bases[i].values.size());M2s_[i].setZero();counts_[i].resize(qfun_.bases[i].values.size());}}'),
+('fbExpRecord', 'src/Factored/Bandit/Experience.cpp', 'Experience::record\\s*\\([^)]*\\)\\s*\\{', '{assert(static_cast<size_t>(rews.size())==qfun_.bases.size());++timesteps_;for(size_ti=0;i<qfun_.bases.size();++i){constautoaId=toIndexPartial(qfun_.bases[i].tag,A,a);auto&c=counts_[i];auto&q=qfun_.bases[i].values;auto&m=M2s_[i];++c[aId];constautodelta=rews[i]-q[aId];q[aId]+=delta/c[aId];m[aId]+=delta*(rews[i]-q[aId]);indeces_[i]=aId;}returnindeces_;}'),
+('fbExpReset', 'src/Factored/Bandit/Experience.cpp', 'void\\s+Experience::reset\\s*\\(\\s*\\)\\s*\\{', '{for(auto&basis:qfun_.bases)basis.values.setZero();for(auto&m:M2s_)m.setZero();for(auto&c:counts_)std::fill(std::begin(c),std::end(c),0);timesteps_=0;}'),
+('banditExpRecord', 'src/Bandit/Experience.cpp', 'void\\s+Experience::record\\s*\\([^)]*\\)\\s*\\{', '{++timesteps_;++counts_[a];constautodelta=rew-q_[a];q_[a]+=delta/counts_[a];M2s_[a]+=delta*(rew-q_[a]);}'),
+('banditExpReset', 'src/Bandit/Experience.cpp', 'void\\s+Experience::reset\\s*\\(\\s*\\)\\s*\\{', '{q_.setZero();M2s_.setZero();std::fill(std::begin(counts_),std::end(counts_),0);timesteps_=0;}'),
+('mdpExpRecord', 'src/MDP/Experience.cpp', 'void\\s+Experience::record\\s*\\([^)]*\\)\\s*\\{', '{++timesteps_;visits_[a](s,s1)+=1;visitsSum_(s,a)+=1;constautodelta=rew-rewards_(s,a);rewards_(s,a)+=delta/visitsSum_(s,a);M2s_(s,a)+=delta*(rew-rewards_(s,a));}'),
+('mdpExpReset', 'src/MDP/Experience.cpp', 'void\\s+Experience::reset\\s*\\(\\s*\\)\\s*\\{', '{for(size_ta=0;a<A;++a)visits_[a].setZero();visitsSum_.setZero();rewards_.setZero();M2s_.setZero();timesteps_=0;}'),
+('sparseExpRecord', 'src/MDP/SparseExperience.cpp', 'void\\s+SparseExperience::record\\s*\\([^)]*\\)\\s*\\{', '{++timesteps_;visits_[a].coeffRef(s,s1)+=1;visitsSum_.coeffRef(s,a)+=1;constautodelta=rew-rewards_.coeffRef(s,a);rewards_.coeffRef(s,a)+=delta/visitsSum_.coeffRef(s,a);M2s_.coeffRef(s,a)+=delta*(rew-rewards_.coeffRef(s,a));}'),
+('sparseExpReset', 'src/MDP/SparseExperience.cpp', 'void\\s+SparseExperience::reset\\s*\\(\\s*\\)\\s*\\{', '{for(size_ta=0;a<A;++a){visits_[a].setZero();visits_[a].makeCompressed();}visitsSum_.setZero();visitsSum_.makeCompressed();rewards_.setZero();rewards_.makeCompressed();M2s_.setZero();M2s_.makeCompressed();timesteps_=0;}'),
+('toIndexPartial', 'src/Factored/Utils/Core.cpp', 'size_t\\s+toIndexPartial\\s*\\(\\s*const\\s+PartialKeys\\s*&\\s*ids\\s*,\\s*const\\s+Factors\\s*&\\s*space\\s*,\\s*const\\s+Factors\\s*&\\s*f\\s*\\)\\s*\\{', '{size_tresult=0;size_tmultiplier=1;for(autoid:ids){result+=multiplier*f[id];multiplier*=space[id];}returnresult;}'),
+('factorSpacePartial', 'src/Factored/Utils/Core.cpp', 'size_t\\s+factorSpacePartial\\s*\\(\\s*const\\s+PartialKeys\\s*&\\s*ids\\s*,\\s*const\\s+Factors\\s*&\\s*space\\s*\\)\\s*\\{', '{size_tretval=1;for(constautoid:ids){if(std::numeric_limits<size_t>::max()/space[id]<retval)returnstd::numeric_limits<size_t>::max();retval*=space[id];}returnretval;}'),
+('ddnGetIdSA', 'src/Factored/Utils/BayesianNetwork.cpp', 'size_t\\s+DDNGraph::getId\\s*\\(\\s*const\\s+size_t\\s+feature\\s*,\\s*const\\s+State\\s*&\\s*s\\s*,\\s*const\\s+Action\\s*&\\s*a\\s*\\)\\s*const\\s*\\{', '{constauto[parentId,actionId]=getIds(feature,s,a);returngetId(feature,parentId,actionId);}'),
+('ddnGetId3', 'src/Factored/Utils/BayesianNetwork.cpp', 'size_t\\s+DDNGraph::getId\\s*\\(\\s*const\\s+size_t\\s+feature\\s*,\\s*size_t\\s+parentId\\s*,\\s*size_t\\s+actionId\\s*\\)\\s*const\\s*\\{', '{returnstartIds_[feature][actionId]+parentId;}'),
+('ddnGetIdsSA', 'src/Factored/Utils/BayesianNetwork.cpp', 'DDNGraph::getIds\\s*\\(\\s*const\\s+size_t\\s+feature\\s*,\\s*const\\s+State\\s*&\\s*s\\s*,\\s*const\\s+Action\\s*&\\s*a\\s*\\)\\s*const\\s*\\{', '{constautoactionId=toIndexPartial(parents_[feature].agents,A,a);constauto&features=parents_[feature].features[actionId];constautoparentId=toIndexPartial(features,S,s);return{parentId,actionId};}'),
+('ddnGetSize', 'src/Factored/Utils/BayesianNetwork.cpp', 'size_t\\s+DDNGraph::getSize\\s*\\(\\s*const\\s+size_t\\s+feature\\s*\\)\\s*const\\s*\\{', '{returnstartIds_[feature].back();}'),
+('ddnTransitionProbability', 'src/Factored/Utils/BayesianNetwork.cpp', 'DDN::getTransitionProbability\\s*\\(\\s*const\\s+Factors\\s*&\\s*s\\s*,\\s*const\\s+Factors\\s*&\\s*a\\s*,\\s*const\\s+Factors\\s*&\\s*s1\\s*\\)\\s*const\\s*\\{', '{doubleretval=1.0;for(size_ti=0;i<graph.getS().size();++i){retval*=transitions[i](graph.getId(i,s,a),s1[i]);}returnretval;}'),
+('checkEqualSmall', 'include/AIToolbox/Utils/Core.hpp', 'inline\\s+bool\\s+checkEqualSmall\\s*\\(\\s*const\\s+double\\s+a\\s*,\\s*const\\s+double\\s+b\\s*\\)\\s*\\{', '{return(std::fabs(a-b)<=equalToleranceSmall);}'),
+('checkDifferentSmall', 'include/AIToolbox/Utils/Core.hpp', 'inline\\s+bool\\s+checkDifferentSmall\\s*\\(\\s*const\\s+double\\s+a\\s*,\\s*const\\s+double\\s+b\\s*\\)\\s*\\{', '{return!checkEqualSmall(a,b);}'),
+('sampleDirichletDistribution', 'include/AIToolbox/Utils/Probability.hpp', 'void\\s+sampleDirichletDistribution\\s*\\(\\s*const\\s+TIn\\s*&\\s*params\\s*,\\s*G\\s*&\\s*generator\\s*,\\s*TOut\\s*&&\\s*out\\s*\\)\\s*\\{', '{assert(params.size()==out.size());doublesum=0.0;for(size_ti=0;i<static_cast<size_t>(params.size());++i){std::gamma_distribution<double>dist(params[i],1.0);out[i]=dist(generator);sum+=out[i];}out/=sum;}'),
+('thompsonSyncSA', 'include/AIToolbox/MDP/ThompsonModel.hpp', 'void\\s+ThompsonModel<E>::sync\\s*\\(\\s*const\\s+size_t\\s+s\\s*,\\s*const\\s+size_t\\s+a\\s*\\)\\s*\\{', '{ifconstexpr(IsExperienceEigen<E>&&requires{experience_.getVisitsTable(a).row(s).array();}){sampleDirichletDistribution(experience_.getVisitsTable(a).row(s).array().templatecast<double>()+0.5,rand_,transitions_[a].row(s));}else{doublesum=0.0;for(size_ts1=0;s1<S;++s1){std::gamma_distribution<double>dist(experience_.getVisits(s,a,s1)+0.5,1.0);transitions_[a](s,s1)=dist(rand_);sum+=transitions_[a](s,s1);}transitions_[a].row(s)/=sum;}constautovisits=experience_.getVisitsSum(s,a);constautoMLEReward=experience_.getReward(s,a);constautoM2=experience_.getM2(s,a);if(visits<2){rewards_(s,a)=MLEReward;}else{std::student_t_distribution<double>dist(visits-1);rewards_(s,a)=MLEReward+dist(rand_)*std::sqrt(M2/(visits*(visits-1)));}}'),
+('thompsonSync', 'include/AIToolbox/MDP/ThompsonModel.hpp', 'void\\s+ThompsonModel<E>::sync\\s*\\(\\s*\\)\\s*\\{', '{for(size_ta=0;a<A;++a)for(size_ts=0;s<S;++s)sync(s,a);}'),
+('coopTSSync', 'src/Factored/MDP/CooperativeThompsonModel.cpp', 'void\\s+CooperativeThompsonModel::sync\\s*\\(\\s*\\)\\s*\\{', '{constauto&S=experience_.getS();for(size_ti=0;i<S.size();++i){for(size_tj=0;j<getGraph().getSize(i);++j){syncRow(i,j);}}}'),
+('denseMLCtor', 'include/AIToolbox/MDP/MaximumLikelihoodModel.hpp', 'MaximumLikelihoodModel<E>::MaximumLikelihoodModel\\s*\\([^)]*\\)\\s*:[^{]*\\{', '{setDiscount(discount);rewards_.setZero();for(size_ta=0;a<A;++a)transitions_[a].setIdentity();if(toSync)sync();}'),
+('denseMLSync', 'include/AIToolbox/MDP/MaximumLikelihoodModel.hpp', 'void\\s+MaximumLikelihoodModel<E>::sync\\s*\\(\\s*\\)\\s*\\{', '{for(size_ta=0;a<A;++a)for(size_ts=0;s<S;++s)sync(s,a);}'),
+('denseMLSyncSA', 'include/AIToolbox/MDP/MaximumLikelihoodModel.hpp', 'void\\s+MaximumLikelihoodModel<E>::sync\\s*\\(\\s*const\\s+size_t\\s+s\\s*,\\s*const\\s+size_t\\s+a\\s*\\)\\s*\\{', '{constautovisitSum=experience_.getVisitsSum(s,a);if(visitSum==0ul)return;rewards_(s,a)=experience_.getReward(s,a);constdoublevisitSumReciprocal=1.0/visitSum;ifconstexpr(IsExperienceEigen<E>){transitions_[a].row(s)=experience_.getVisitsTable(a).row(s).templatecast<double>()*visitSumReciprocal;}else{for(size_ts1=0;s1<S;++s1){constautovisits=experience_.getVisits(s,a,s1);transitions_[a](s,s1)=static_cast<double>(visits)*visitSumReciprocal;}}}'),
+('denseMLSyncInc', 'include/AIToolbox/MDP/MaximumLikelihoodModel.hpp', 'void\\s+MaximumLikelihoodModel<E>::sync\\s*\\(\\s*const\\s+size_t\\s+s\\s*,\\s*const\\s+size_t\\s+a\\s*,\\s*const\\s+size_t\\s+s1\\s*\\)\\s*\\{', '{constautovisitSum=experience_.getVisitsSum(s,a);if(!(visitSum%PERIODul))returnsync(s,a);rewards_(s,a)=experience_.getReward(s,a);if(visitSum==1ul){transitions_[a].row(s).setZero();transitions_[a](s,s1)=1.0;}else{constdoublenewVisits=static_cast<double>(experience_.getVisits(s,a,s1));constdoublenewTransitionValue=newVisits/static_cast<double>(visitSum-1);constdoublenewVectorSum=1.0+(newTransitionValue-transitions_[a](s,s1));transitions_[a](s,s1)=newTransitionValue;transitions_[a].row(s)/=newVectorSum;}}'),
+('denseMLGetTP', 'include/AIToolbox/MDP/MaximumLikelihoodModel.hpp', 'double\\s+MaximumLikelihoodModel<E>::getTransitionProbability\\s*\\([^)]*\\)\\s*const\\s*\\{', '{returntransitions_[a](s,s1);}'),
+('denseMLGetER', 'include/AIToolbox/MDP/MaximumLikelihoodModel.hpp', 'double\\s+MaximumLikelihoodModel<E>::getExpectedReward\\s*\\([^)]*\\)\\s*const\\s*\\{', '{returnrewards_(s,a);}'),
+('sparseMLCtor', 'include/AIToolbox/MDP/SparseMaximumLikelihoodModel.hpp', 'SparseMaximumLikelihoodModel<E>::SparseMaximumLikelihoodModel\\s*\\([^)]*\\)\\s*:[^{]*\\{', '{setDiscount(discount);if(toSync){sync();for(size_ta=0;a<A;++a){for(size_ts=0;s<S;++s)if(experience_.getVisitsSum(s,a)==0ul)transitions_[a].insert(s,s)=1.0;}}else{for(size_ta=0;a<A;++a)transitions_[a].setIdentity();}}'),
+('sparseMLSync', 'include/AIToolbox/MDP/SparseMaximumLikelihoodModel.hpp', 'void\\s+SparseMaximumLikelihoodModel<E>::sync\\s*\\(\\s*\\)\\s*\\{', '{for(size_ta=0;a<A;++a)for(size_ts=0;s<S;++s)sync(s,a);}'),
+('sparseMLSyncSA', 'include/AIToolbox/MDP/SparseMaximumLikelihoodModel.hpp', 'void\\s+SparseMaximumLikelihoodModel<E>::sync\\s*\\(\\s*const\\s+size_t\\s+s\\s*,\\s*const\\s+size_t\\s+a\\s*\\)\\s*\\{', '{constautovisitSum=experience_.getVisitsSum(s,a);if(visitSum==0ul)return;if(rewards_.coeff(s,a)!=experience_.getReward(s,a))rewards_.coeffRef(s,a)=experience_.getReward(s,a);if(visitSum==1ul)transitions_[a].coeffRef(s,s)=0.0;constdoublevisitSumReciprocal=1.0/visitSum;ifconstexpr(IsExperienceEigen<E>&&requires{transitions_[a].row(s)=experience_.getVisitsTable(a).row(s).templatecast<double>()*visitSumReciprocal;}){transitions_[a].row(s)=experience_.getVisitsTable(a).row(s).templatecast<double>()*visitSumReciprocal;}else{transitions_[a].row(s)*=0.0;for(size_ts1=0;s1<S;++s1){constautovisits=experience_.getVisits(s,a,s1);if(visits>0)transitions_[a].coeffRef(s,s1)=static_cast<double>(visits)*visitSumReciprocal;}}}'),
+('sparseMLSyncInc', 'include/AIToolbox/MDP/SparseMaximumLikelihoodModel.hpp', 'void\\s+SparseMaximumLikelihoodModel<E>::sync\\s*\\(\\s*const\\s+size_t\\s+s\\s*,\\s*const\\s+size_t\\s+a\\s*,\\s*const\\s+size_t\\s+s1\\s*\\)\\s*\\{', '{constautovisitSum=experience_.getVisitsSum(s,a);if(!(visitSum%PERIODul))returnsync(s,a);if(rewards_.coeff(s,a)!=experience_.getReward(s,a))rewards_.coeffRef(s,a)=experience_.getReward(s,a);if(visitSum==1ul){transitions_[a].row(s)*=0.0;transitions_[a].coeffRef(s,s1)=1.0;}else{constdoublenewVisits=static_cast<double>(experience_.getVisits(s,a,s1));constdoublenewTransitionValue=newVisits/static_cast<double>(visitSum-1);constdoublenewVectorSum=1.0+(newTransitionValue-transitions_[a].coeff(s,s1));transitions_[a].coeffRef(s,s1)=newTransitionValue;transitions_[a].row(s)/=newVectorSum;}}'),
+('sparseMLGetTP', 'include/AIToolbox/MDP/SparseMaximumLikelihoodModel.hpp', 'double\\s+SparseMaximumLikelihoodModel<E>::getTransitionProbability\\s*\\([^)]*\\)\\s*const\\s*\\{', '{returntransitions_[a].coeff(s,s1);}'),
+('sparseMLGetER', 'include/AIToolbox/MDP/SparseMaximumLikelihoodModel.hpp', 'double\\s+SparseMaximumLikelihoodModel<E>::getExpectedReward\\s*\\([^)]*\\)\\s*const\\s*\\{', '{returnrewards_.coeff(s,a);}'),
+('coopTSGetTP', 'src/Factored/MDP/CooperativeThompsonModel.cpp', 'double\\s+CooperativeThompsonModel::getTransitionProbability\\s*\\([^)]*\\)\\s*const\\s*\\{', '{returntransitions_.getTransitionProbability(s,a,s1);}'),
+('coopTSGetER', 'src/Factored/MDP/CooperativeThompsonModel.cpp', 'double\\s+CooperativeThompsonModel::getExpectedReward\\s*\\([^)]*\\)\\s*const\\s*\\{', '{constauto&S=experience_.getS();doubleretval=0.0;for(size_ti=0;i<S.size();++i){constautoj=experience_.getGraph().getId(i,s,a);retval+=rewards_[i][j];}returnretval;}'),
+('coopTSGetERs', 'src/Factored/MDP/CooperativeThompsonModel.cpp', 'void\\s+CooperativeThompsonModel::getExpectedRewards\\s*\\([^)]*\\)\\s*const\\s*\\{', '{assert(rewsp);constauto&S=experience_.getS();auto&rews=*rewsp;for(size_ti=0;i<S.size();++i){constautoj=experience_.getGraph().getId(i,s,a);rews[i]=rewards_[i][j];}}'),
+('coopTSCtor', 'src/Factored/MDP/CooperativeThompsonModel.cpp', 'CooperativeThompsonModel::CooperativeThompsonModel\\s*\\([^)]*\\)\\s*:[^;]*?\\)\\s*\\{', '{setDiscount(discount);constauto&S=experience_.getS();auto&tProbs=transitions_.transitions;tProbs.reserve(S.size());rewards_.reserve(S.size());for(size_ti=0;i<S.size();++i){constautod1=experience_.getGraph().getSize(i);constautod2=S[i];tProbs.emplace_back(d1,d2);rewards_.emplace_back(d1);}sync();}'),
+]
+
+BN = 'src/Factored/Utils/BayesianNetwork.cpp'
+PUSH_TAIL = ('parents_.emplace_back(std::move(parents));auto&newParents=parents_.back();startIds_.emplace_back(newParents.features.size()+1);'
+             'auto&newStartIds=startIds_.back();size_tnewStartId=0;for(size_ti=0;i<newParents.features.size();++i){newStartIds[i]=newStartId;'
+             'newStartId+=factorSpacePartial(newParents.features[i],S);}newStartIds.back()=newStartId;}')
+
+
+def _norm_body(src, pat, what):
+    m = X.find1(pat, src, what, re.S)
+    blk, _ = block_after(src, m.end() - 1)
+    # the resync period is extracted on its own (Gen/Constants) and the theorems hold for every period: not part of the pinned text
+    return re.sub(r'%\d+ul', '%PERIODul', re.sub(r'\s+', '', blk)), X.lineno(src, m.start())
+
+
+def gen_c07_sites():
+    lenient = os.environ.get('AITB_C07_LENIENT_SITES') == '1'
+    out, errs, cache = [], [], {}
+    for name, rel, pat, want in C07_SITES:
+        src = cache.setdefault(rel, X.strip_comments(X.read(rel)))
+        try:
+            got, ln = _norm_body(src, pat, f'{rel}: {name}')
+        except X.ExtractError as e:
+            errs.append(str(e)); continue
+        if got == want:
+            out.append((name, rel, ln))
+        else:
+            errs.append(f'{rel}:{ln}: {name} is not in the form the Lean model was written from: {got[:200]}')
+    src = cache.setdefault(BN, X.strip_comments(X.read(BN)))
+    try:
+        body, ln = _norm_body(src, r'void\s+DDNGraph::push\s*\(\s*ParentSet\s+parents\s*\)\s*\{', BN + ': DDNGraph::push')
+        if body.endswith(PUSH_TAIL):
+            out.append(('ddnPushStartIds', BN, ln))
+        else:
+            errs.append(f'{BN}:{ln}: DDNGraph::push no longer ends with the modelled startIds_ prefix-sum loop')
+    except X.ExtractError as e:
+        errs.append(str(e))
+    L = ['/- GENERATED by tools/extract_c07.py from the library source — do not edit. -/', 'namespace AITB.Gen.C07Sites', '',
+         '/-- functions whose comment-stripped text is, today, exactly the text the C07 Lean model was written from: (name, file, line) -/',
+         'def asModelled : List (String × String × Nat) := [']
+    for i, (n, rel, ln) in enumerate(out):
+        L.append(f'  ("{n}", "{rel}", {ln})' + (',' if i + 1 < len(out) else ''))
+    L += [']', '', '/-- every site the model was written from -/', 'def expected : List String := [']
+    names = [n for n, _, _, _ in C07_SITES] + ['ddnPushStartIds']
+    for i, n in enumerate(names):
+        L.append(f'  "{n}"' + (',' if i + 1 < len(names) else ''))
+    L += [']', '', 'end AITB.Gen.C07Sites', '']
+    X.write_if_changed('C07Sites', '\n'.join(L))
+    if errs and not lenient:
+        raise X.ExtractError('; '.join(errs))
+
+
+GENERATORS = [gen_c07, gen_c07_sites]
